@@ -24,7 +24,7 @@ def schema_lib(bdir, exp_path, cfg="dbg"):
         shutil.rmtree(wdir, ignore_errors=True)
         os.makedirs(wdir)
         shutil.copy(exp_path, os.path.join(wdir, "schema.exp"))
-        rc, out, err = sh([os.path.join(bdir, "bin", "exp2cxx"), "schema.exp"], cwd=wdir, timeout=600)
+        rc, out, err = sh([os.path.join(bdir, "bin", "exp2cxx"), "schema.exp"], cwd=wdir, timeout=600, env={"ASAN_OPTIONS": "detect_leaks=0"})
         log = "exp2cxx rc=%d\n%s\n%s\n" % (rc, out[-3000:], err[-3000:])
         ok = rc == 0
         if ok:
